@@ -323,9 +323,11 @@ Do(inp, orc, s, c) ==
          ELSE IF c = 0 THEN Found(inp, s, "te", here - 1)
          ELSE IF c = 40 THEN To(s, "DescBracketsInner")
          ELSE Do(inp, orc, To(s, "DescTextNewline"), c)
-    [] st = "DescBracketsInner" -> IF Nl(c) THEN To(s, "DescBracketsInnerNewLine") ELSE s
+    \* end of input inside the parentheses is an error (fix for F-27; it used to be ignored)
+    [] st = "DescBracketsInner" -> IF c = 0 THEN Err ELSE IF Nl(c) THEN To(s, "DescBracketsInnerNewLine") ELSE s
     [] st = "DescBracketsInnerNewLine" ->
-         IF Ws(c) \/ Nl(c) THEN s
+         IF c = 0 THEN Err
+         ELSE IF Ws(c) \/ Nl(c) THEN s
          ELSE IF c = 41 THEN To(Found(inp, s, "te", here), "ExpectKeyword")
          ELSE To(s, "DescBracketsInner")
     [] st = "DescText" ->
